@@ -27,15 +27,18 @@ theorem plain_ne {c d : Char} (h : plainChar c = true) (hd : d.toNat < 46 ∨ d.
   · omega
   · subst h; revert hd; decide
 
-theorem escapedQuoted_plain (l rest : List Char) (h : ∀ c ∈ l, plainChar c = true) :
+/-- no quote, backslash or newline: the characters a quoted marker value may consist of without escapes -/
+def QFree (val : List Char) : Prop := ∀ c ∈ val, c ≠ '\n' ∧ c ≠ '"' ∧ c ≠ '\\'
+
+theorem escapedQuoted_plain (l rest : List Char) (h : QFree l) :
     escapedQuoted false (l ++ '"' :: rest) = some (l, rest) := by
   induction l with
   | nil => simp [escapedQuoted]
   | cons c cs ih =>
     have hc := h c (by simp)
-    have h1 : c ≠ '\n' := plain_ne hc (by decide)
-    have h2 : c ≠ '"' := plain_ne hc (by decide)
-    have h3 : c ≠ '\\' := plain_ne hc (by decide)
+    have h1 : c ≠ '\n' := hc.1
+    have h2 : c ≠ '"' := hc.2.1
+    have h3 : c ≠ '\\' := hc.2.2
     have := ih (fun d hd => h d (by simp [hd]))
     simp only [List.cons_append]
     rw [escapedQuoted]
@@ -49,7 +52,7 @@ theorem boolOps_eq : Marker.boolOps = ["and", "or"] := by decide
 
 theorem parseItem_leaf (n op : String) (hn : n = "python_version" ∨ n = "python_full_version")
     (hop : op = ">=" ∨ op = ">" ∨ op = "<=" ∨ op = "<" ∨ op = "==") (val rest : List Char)
-    (hv : ∀ c ∈ val, plainChar c = true) :
+    (hv : QFree val) :
     parseItem (n.toList ++ ' ' :: (op.toList ++ ' ' :: '"' :: (val ++ '"' :: rest))) =
       some (.item n op (String.ofList val) false, rest) := by
   have hq := escapedQuoted_plain val rest hv
@@ -159,6 +162,9 @@ def PyName (n : String) : Prop := n = "python_version" ∨ n = "python_full_vers
 def CmpOp (op : String) : Prop := op = ">=" ∨ op = ">" ∨ op = "<=" ∨ op = "<" ∨ op = "=="
 def Plain (val : List Char) : Prop := ∀ c ∈ val, plainChar c = true
 
+theorem plain_qfree {val : List Char} (h : Plain val) : QFree val :=
+  fun c hc => ⟨plain_ne (h c hc) (by decide), plain_ne (h c hc) (by decide), plain_ne (h c hc) (by decide)⟩
+
 def leafChars (n op : String) (val : List Char) : List Char :=
   n.toList ++ ' ' :: (op.toList ++ ' ' :: '"' :: (val ++ ['"']))
 
@@ -172,7 +178,7 @@ theorem noBool_of_endOk {rest : List Char} (h : EndOk rest) : matchWord boolOps 
   rcases h with rfl | ⟨r, rfl⟩ <;> simp [boolOps_eq, matchWord, skipWs, stripPrefix?]
 
 theorem parseAtom_leaf (f : Nat) (n op : String) (val rest : List Char) (hn : PyName n) (hop : CmpOp op)
-    (hv : Plain val) :
+    (hv : QFree val) :
     parseAtom (f + 1) (leafChars n op val ++ rest) = some (.item n op (String.ofList val) false, rest) ∧
     parseAtom (f + 1) (' ' :: (leafChars n op val ++ rest)) = some (.item n op (String.ofList val) false, rest) := by
   have hi := parseItem_leaf n op hn hop val rest hv
@@ -182,7 +188,7 @@ theorem parseAtom_leaf (f : Nat) (n op : String) (val rest : List Char) (hn : Py
   rcases hn with rfl | rfl <;> (constructor <;> (unfold parseAtom; simp [skipWs]; simpa using hi))
 
 theorem parseSyn_one (f : Nat) (n op : String) (val rest : List Char) (hn : PyName n) (hop : CmpOp op)
-    (hv : Plain val) (hr : EndOk rest) :
+    (hv : QFree val) (hr : EndOk rest) :
     parseSyn (f + 2) (leafChars n op val ++ rest) = some (.one (.item n op (String.ofList val) false), rest) ∧
     parseSyn (f + 2) (' ' :: (leafChars n op val ++ rest)) = some (.one (.item n op (String.ofList val) false), rest) := by
   have h := parseAtom_leaf f n op val rest hn hop hv
@@ -191,7 +197,7 @@ theorem parseSyn_one (f : Nat) (n op : String) (val rest : List Char) (hn : PyNa
   · rw [parseSyn]; simp [h.2, noBool_of_endOk hr]
 
 theorem parseSyn_two (f : Nat) (n op : String) (val : List Char) (n' op' : String) (val' rest : List Char)
-    (hn : PyName n) (hop : CmpOp op) (hv : Plain val) (hn' : PyName n') (hop' : CmpOp op') (hv' : Plain val')
+    (hn : PyName n) (hop : CmpOp op) (hv : QFree val) (hn' : PyName n') (hop' : CmpOp op') (hv' : QFree val')
     (hr : EndOk rest) :
     parseSyn (f + 3) (leafChars n op val ++ (" and ".toList ++ (leafChars n' op' val' ++ rest))) =
       some (.more (.item n op (String.ofList val) false) false (.one (.item n' op' (String.ofList val') false)), rest) := by
